@@ -94,6 +94,7 @@ func runC09(c *Ctx) {
 	ruleRebuild(c, p, "C09.rebuild")
 	ruleDict(c, p, "C09.dict")
 	ruleCompressDst(c, p, "C09.dst")
+	ruleVectoredEquiv(c, p, "C09.vectored")
 	c.R.Assumptions = append(c.R.Assumptions,
 		"(*proto.Writer).Flush writes synchronously (net.Buffers.WriteTo) and drops every reference afterwards (C09.writer.* = the C14 induction steps)",
 		"decided: order of encode / flush / callback / terminator on all paths; not decided: byte equality of each block with the snapshot taken inside the callback")
